@@ -24,6 +24,17 @@ import "ex.com/sc/p/a"
 
 func Deep() int { return a.UseNL(nil) + a.UseRep(nil) + a.Src(true).V }
 """,
+    # a file directly in the module root: its steps are printed as <module directory>/root.go (part of the path prefix)
+    "root.go": """package sc
+
+func RootSrc() *int { return nil }
+""",
+    "q/c/d/viaroot.go": """package d
+
+import "ex.com/sc"
+
+func ViaRoot() int { return *sc.RootSrc() }
+""",
     "p/ab/ab.go": """package ab
 
 import "ex.com/sc/p/a"
@@ -52,7 +63,9 @@ def run_binary(cwd, root, extra_flags=(), include=True):
     text = err + "\n" + out
     for m in re.finditer(r"^(/[^\n:]+\.go):(\d+):(\d+): (.*?)(?=^/[^\n:]+\.go:\d+:\d+: |\Z)", text, flags=re.M | re.S):
         f, l, c, msg = m.group(1), int(m.group(2)), int(m.group(3)), m.group(4).strip()
-        diags.add((f.replace(root, "<R>"), l, c, msg))
+        # steps shorten paths to <last directory>/<file>: for a file directly in the module root that directory is
+        # the module directory itself, i.e. part of the path prefix the statement abstracts from
+        diags.add((f.replace(root, "<R>"), l, c, msg.replace(os.path.basename(root) + "/", "<M>/")))
     return rc, diags, text
 
 
